@@ -207,6 +207,20 @@ func init() {
 						return crashScenario(c03Cfg{layout: layout, sink: sink, threads: shapes[shape]}, b, "write")
 					})
 				}
+				if sink == "rolling" && shape == "2x2" {
+					// two threads, an interval boundary crossed at any clock read, a crash at any point: a call
+					// that returns while ANOTHER thread's rotation is in progress has its line in a file all the same
+					register("C20", fmt.Sprintf("c20/%s/%s/%s/boundaries", sink, layout, shape), "qt", func(tier string) *zzvrt.Scenario {
+						b := zzvrt.Bounds{Preempt: 1, Horizon: 5000}
+						b.Env[zzvrt.SeamCrash] = 1
+						b.Env[zzvrt.SeamTick] = 1
+						if tier == "thorough" {
+							b.Preempt = 2
+							b.Env[zzvrt.SeamTick] = 2
+						}
+						return crashScenario(c03Cfg{layout: layout, sink: sink, threads: shapes[shape]}, b)
+					})
+				}
 				if sink == "rolling" && shape == "1x3" {
 					// the same with interval boundaries and failing file creations before the crash point
 					register("C20", fmt.Sprintf("c20/%s/%s/%s/boundaries+failed-creations", sink, layout, shape), "qt", func(tier string) *zzvrt.Scenario {
